@@ -907,3 +907,45 @@ def shrink_candidates(case):
                 c = copy.deepcopy(case)
                 c['oms'][k]['cells'] = '1' * len(o['cells'])
                 yield c
+
+
+# ---------------------------------------------------------------------------------------------------------------------
+# thorough tier: complete enumeration of a small scope
+# ---------------------------------------------------------------------------------------------------------------------
+
+def exhaustive():
+    """ALL histories of length <= 2 over an alphabet of 60 requests, and all histories of length 3 over a sub-alphabet of
+    18, on 2 OMS x 17 slots (n = -8..8, guard band one grid step), from two initial states; both policies for length 1."""
+    f_min, f_max, gb = ANCHOR - 8 * GRID, ANCHOR + 8 * GRID, GRID
+
+    def oms(cells0, cells1):
+        return [{'f_min': f_min, 'f_max': f_max, 'guardband': gb, 'grid': GRID, 'cells': c} for c in (cells0, cells1)]
+    states = [oms(None, None), oms('1' * 17, 'uuu' + '1' * 6 + '00' + '1' * 6)]
+    paths = [(['T', 'R', 0, 'R', 'T'], []), (['T', 'R', 1, 'R', 'T'], []), (['T', 'R', 0, 'R', 'T'], ['T', 'R', 1, 'R', 'T'])]
+    shapes = [[(None, None)], [(None, 2)], [(-5, 2)], [(0, 2)], [(3, None)], [(None, 2), (None, 2)],
+              [(-4, None)], [(4, 2)], [(-5, 2), (5, 2)], [(None, 4)]]
+    alphabet = []
+    for pi, (p, rp) in enumerate(paths):
+        for si, sh in enumerate(shapes):
+            for bw in (100, 200):
+                alphabet.append((pi, si, bw))
+    small = [(pi, si, 100) for pi in range(3) for si in range(6)]
+
+    def mk(hist, st, pol):
+        reqs = []
+        for i, (pi, si, bw) in enumerate(hist):
+            p, rp = paths[pi]
+            reqs.append({'id': f'x{i}', 'slots': [{'N': n, 'M': m} for n, m in shapes[si]], 'path_bandwidth': bw * 10 ** 9,
+                         'bit_rate': 100 * 10 ** 9, 'spacing': 25 * 10 ** 9, 'pth': p, 'rpth': rp, 'pre_blocked': False})
+        return {'kind': 'history', 'policy': pol, 'oms': copy.deepcopy(st), 'requests': reqs}
+    for st in states:
+        for a in alphabet:
+            yield mk([a], st, 'first_fit')
+            yield mk([a], st, 'last_fit')
+        for a in alphabet:
+            for b in alphabet:
+                yield mk([a, b], st, 'first_fit')
+        for a in small:
+            for b in small:
+                for c in small:
+                    yield mk([a, b, c], st, 'first_fit')
